@@ -34,17 +34,21 @@ Record variant := {
   v_drop_first : bool;   (* flusher drops the snapshot table BEFORE publishing the files *)
   v_gc_ignores_refs : bool;  (* physical removal does not wait for reference count 0 *)
   v_no_snap_lock : bool; (* flusher swaps / drops without waiting for readers inside the snapshot lock *)
-  v_stale_list : bool    (* TODAY'S CODE: the flusher fetches the out-of-order list object (makeTSSPFiles) in one
+  v_stale_list : bool;   (* THE CODE BEFORE fix 0726c22: the flusher fetches the out-of-order list object (makeTSSPFiles) in one
                             critical section and appends to it in a later one, while deleteUnorderedFiles may remove
                             an empty list object from MmsTables.OutOfOrder in between *)
+  v_drop_blind : bool;   (* mutant: deleteUnorderedFiles deletes the out-of-order list object from the map on the stale
+                            "list became empty" decision of its first critical section, without re-checking under m.mu *)
+  v_no_wait_snap : bool  (* mutant: a flush starts without waiting for the snapshot that is already in flight
+                            (ForceFlush without waitSnapshot / background snapshot ignoring snapshotTbl != nil) *)
 }.
 Definition correct : variant :=
   {| v_flag_first := false; v_drop_first := false; v_gc_ignores_refs := false; v_no_snap_lock := false;
-     v_stale_list := false |}.
+     v_stale_list := false; v_drop_blind := false; v_no_wait_snap := false |}.
 (* the protocol as the repository implements it today (see Refuted.v) *)
 Definition current : variant :=
   {| v_flag_first := false; v_drop_first := false; v_gc_ignores_refs := false; v_no_snap_lock := false;
-     v_stale_list := true |}.
+     v_stale_list := true; v_drop_blind := false; v_no_wait_snap := false |}.
 
 (* ---------------------------------------------------------------- shared state *)
 Record mtab := { m_rows : list nat; m_hold : list nat; m_flag : bool; m_dead : bool }.
@@ -323,7 +327,9 @@ Definition step_flusher (V : variant) (l : list actor) (s : shared) (f : flusher
           match active s with
           | None => Some (s, {| fl_left := n; fl_ph := F0 |})           (* writeSnapshot: activeTbl == nil -> return *)
           | Some a =>
-              if free && match snap s with None => true | Some _ => false end
+              (* the single snapshot slot: ForceFlush waits for the snapshot in flight (waitSnapshot), the background
+                 snapshot is not started while snapshotTbl != nil (shouldSnapshot) *)
+              if free && (v_no_wait_snap V || match snap s with None => true | Some _ => false end)
               then let s1 := set_mts s (mts s ++ [new_mtab]) in
                    Some (set_active_snap s1 (Some (length (mts s))) (Some a), {| fl_left := fl_left f; fl_ph := F1 a |})
               else None
@@ -369,7 +375,14 @@ Definition step_replacer (V : variant) (s : shared) (todo : list rop) : option (
                else Some (s, t)                                 (* plan no longer applicable: skipped *)
            | Delist fs =>
                if nodup_nat fs && all_listed s fs && covered_elsewhere s fs
-               then Some (set_files s (map_at 0 (fun k => mem_nat k fs) f_delist (files s)), t)
+               then let s1 := set_files s (map_at 0 (fun k => mem_nat k fs) f_delist (files s)) in
+                    (* first critical section of deleteUnorderedFiles; the mutant remembers here whether the list
+                       became empty (it skips the second section otherwise) *)
+                    let t1 := if v_drop_blind V
+                              then (if is_nil (filter (fun f => match get_file s1 f with Some x => negb (f_ord x) | None => false end) (listed s1))
+                                    then t else match t with DropList :: t' => t' | _ => t end)
+                              else t in
+                    Some (s1, t1)
                else Some (s, t)
            | Merge =>
                let os := filter (fun f => match get_file s f with Some x => f_ord x | None => false end) (listed s) in
@@ -380,7 +393,11 @@ Definition step_replacer (V : variant) (s : shared) (todo : list rop) : option (
                     Some (set_files s1 (files s1 ++ [mk_file rows None true true]), Delist us :: DropList :: t)
            | DropList =>
                let us := filter (fun f => match get_file s f with Some x => negb (f_ord x) | None => false end) (listed s) in
-               if is_nil us then Some (set_seq s (hi s) (S (ugen s)), t) else Some (s, t)
+               (* second critical section (under m.mu.Lock): re-read the list object, delete it only if still empty.
+                  Mutant: delete it whatever it holds now - the files it lists become unreachable *)
+               if v_drop_blind V
+               then Some (set_seq (set_files s (map_at 0 (fun k => mem_nat k us) f_delist (files s))) (hi s) (S (ugen s)), t)
+               else if is_nil us then Some (set_seq s (hi s) (S (ugen s)), t) else Some (s, t)
            | Gc _ => Some (s, t)
            end
   end.
